@@ -1,9 +1,70 @@
 import Driver.Codec
-/-! Protocol ops of the `Directive` cluster: decode, call the model, print. -/
+import XdocModel.Directive
+/-!
+Protocol ops of the `Directive` cluster.
+
+Encoding of a directive: `NAME:<+|->:<i|b>:<args>` with args a `;`-joined list of encoded strings
+(`~` = none). A list of directives is `|`-joined (`~` = empty). A requirement table `sat` is a
+`|`-joined list of `<encoded arg>=<1|0|E>` (E = evaluation raises); unknown args raise.
+-/
 namespace Xdoc.Driver
-open Xdoc
+open Xdoc Py
+
+def decDirective (f : String) : Directive :=
+  match f.splitOn ":" with
+  | [n, pm, ib, args] => { name := n, positive := pm == "+", inline := ib == "i", args := decStrList args }
+  | _ => { name := "?" }
+
+def decDirectives (f : String) : List Directive :=
+  if f == "~" then [] else (f.splitOn "|").map decDirective
+
+def encDirective (d : Directive) : String :=
+  s!"{d.name}:{if d.positive then "+" else "-"}:{if d.inline then "i" else "b"}:{encStrList d.args}"
+
+def encDirectives (ds : List Directive) : String :=
+  if ds.isEmpty then "~" else "|".intercalate (ds.map encDirective)
+
+def decSat (f : String) : Str → Option Bool :=
+  let table : List (Str × Option Bool) :=
+    if f == "~" then [] else (f.splitOn "|").filterMap fun e =>
+      match e.splitOn "=" with
+      | [a, v] => some (decStr a, if v == "1" then some true else if v == "0" then some false else none)
+      | _ => none
+  fun a => (table.lookup a).getD none
+
+def decBoolAssoc (f : String) : List (String × Bool) :=
+  if f == "~" then [] else (f.splitOn ",").filterMap fun e =>
+    match e.splitOn "=" with
+    | [k, v] => some (k, v == "1")
+    | _ => none
+
+def encBoolAssoc (l : List (String × Bool)) : String :=
+  if l.isEmpty then "~" else ",".intercalate (l.map fun (k, v) => s!"{k}={encBool v}")
+
+/-- canonical rendering of a state: booleans in key order, REQUIRES sorted by code points -/
+def encRState (s : RState) : String :=
+  let req := (s.requires.map encStr).toArray.qsort (· < ·) |>.toList
+  encBoolAssoc s.toBools ++ " REQ=" ++ (if req.isEmpty then "~" else ";".intercalate req) ++
+    " skips=" ++ encBool s.skips
 
 def opsDirective : List String → Option String
+  /- rs_update <defaults> <sat> <directive list 1> <directive list 2> … : state after each update -/
+  | "rs_update" :: defaults :: sat :: steps =>
+    let sat := decSat sat
+    let rec go (s : RState) : List String → List String
+      | [] => []
+      | st :: rest =>
+        match s.update sat (decDirectives st) with
+        | none => ["raise"]
+        | some s' => encRState s' :: go s' rest
+    some ("\t".intercalate (go (RState.init (decBoolAssoc defaults)) steps))
+  | ["split_opstr", s] =>
+    some (match splitOpstr (decStr s) with | none => "raise" | some l => encStrList l)
+  | ["parse_optstr", s, inl] =>
+    some (match parseDirectiveOptstr (decStr s) (inl == "1") with
+      | none => "none" | some d => encDirective d)
+  | ["directive_re", s] => some (encOptStr (directiveReMatch (decStr s)))
+  | ["commands"] => some (",".intercalate commands)
   | _ => none
 
 end Xdoc.Driver
